@@ -40,7 +40,8 @@ def init_worker() -> str:
 
     warnings.simplefilter("ignore")
     if _WORKDIR is None or not os.path.isdir(_WORKDIR) or _WORKDIR_PID != os.getpid():
-        _WORKDIR = tempfile.mkdtemp(prefix="a816verif_")
+        root = os.environ.get("VERIF_TMPROOT")
+        _WORKDIR = tempfile.mkdtemp(prefix="a816verif_", dir=root if root and os.path.isdir(root) else None)
         _set_pid()
         atexit.register(_cleanup, _WORKDIR, os.getpid())
     os.chdir(_WORKDIR)
